@@ -269,14 +269,15 @@ func (fr *Frame) load(addr Val, pos token.Pos, hint string) Val {
 		return vc.freshVal(hint, addr.Typ, fr.heap)
 	}
 	el := pt.Elem()
-	if addr.Glob != nil && vc.e.roGlobals[addr.Glob] {
+	extErr := addr.Glob != nil && isExternalErrorGlobal(addr.Glob)
+	if addr.Glob != nil && (vc.e.roGlobals[addr.Glob] || extErr) {
 		// a package-level variable that is written only by package initialisation: a constant
 		n := "gval$" + sanitize(normName(addr.Glob.String()))
 		if _, ok := vc.defIdx[n]; !ok {
 			if _, isStruct := el.Underlying().(*types.Struct); !isStruct {
 				d := &Def{Name: n, Sort: vc.sortOf(el)}
 				d.Rng = vc.wf(n, el, "")
-				if vc.e.nonNilGlobal[addr.Glob] {
+				if vc.e.nonNilGlobal[addr.Glob] || extErr {
 					d.Rng = sAnd(d.Rng, sNot(sEq(sApp("i-tag", n), "0")))
 				}
 				vc.defs = append(vc.defs, d)
@@ -903,6 +904,14 @@ func (e *Engine) fnMods(fn *ssa.Function, visiting map[*ssa.Function]bool) *ModS
 		}
 	}
 	delete(visiting, fn)
+	if raw {
+		// ghost effects are declared on contracts: a body summary that ignores contracts still has to name them
+		if c, ok := e.contracts[fnName(fn)]; ok {
+			for _, g := range c.Ghost {
+				ms.Maps["G_"+g.Target] = true
+			}
+		}
+	}
 	n := len(visiting)
 	if raw {
 		n--
@@ -1037,3 +1046,16 @@ func (e *Engine) callMods(call *ssa.CallCommon, ms *ModSet, visiting map[*ssa.Fu
 }
 
 var _ = fmt.Sprintf
+
+// sentinel errors of other packages (io.EOF, ...) are package-level variables that are initialised once and
+// never reassigned: constants, and not nil
+func isExternalErrorGlobal(g *ssa.Global) bool {
+	if g.Pkg == nil || g.Pkg.Pkg == nil || strings.HasPrefix(g.Pkg.Pkg.Path(), strings.TrimSuffix(modPath, "/")) {
+		return false
+	}
+	pt, ok := g.Type().(*types.Pointer)
+	if !ok {
+		return false
+	}
+	return types.TypeString(pt.Elem(), nil) == "error"
+}
